@@ -127,6 +127,10 @@ def gen_node(budget, depth):
         yield ['let', [['z', N('v')]], inner], used
         yield ['try', inner, [], None], used
         yield ['try', inner + [BOOM], [], None], used
+        if not inner:
+            # the else section fails: its text so far is lost, the
+            # handler's text is not shown, the error goes on
+            yield ['tryelse', inner], used
         yield ['comment', inner], used
 
 
@@ -157,6 +161,9 @@ def fill(n, slots):
         return ['let', n[1], interleave(n[2], slots)]
     if k == 'try':
         return ['try', interleave(n[1], slots), [[[], [slots.new()]]], None]
+    if k == 'tryelse':
+        return ['try', interleave(n[1], slots), [[[], [slots.new()]]],
+                [slots.new(), BOOM, slots.new()]]
     if k == 'comment':
         return ['comment', interleave(n[1], slots)]
     raise ValueError(k)
